@@ -87,6 +87,8 @@ def scenario(sh: Shard, seed, idx, regime):
             if r.random() < 0.2:
                 await asyncio.sleep(r.choice([0, 0.05]))
 
+        cancel_after = r.choice([None, None, None, 0.0, 0.05, 0.3, 1.2, 3.9, 4.05]) if idx % 4 == 3 else None
+
         async def main():
             tm = AsyncTasks()
             await tm.__aenter__()
@@ -94,10 +96,22 @@ def scenario(sh: Shard, seed, idx, regime):
             t0 = w.now
             out["t0"] = t0
             try:
-                await loc.discover()
+                if cancel_after is None:
+                    await loc.discover()
+                else:
+                    # the caller gives up (manager exit, wait_for): discovery is cancelled part way
+                    task = asyncio.ensure_future(loc.discover())
+                    task.add_done_callback(lambda t: out.setdefault("t_done", w.now))
+                    await asyncio.sleep(cancel_after)
+                    out["cancelled"] = not task.done()
+                    task.cancel()
+                    try:
+                        await task
+                    except asyncio.CancelledError:
+                        pass
             except Exception as e:
                 out["exc"] = e
-            out["t1"] = w.now
+            out["t1"] = out.get("t_done", w.now) if not out.get("cancelled") else w.now
             out["spas"] = list(loc.spas or [])
             out["transports"] = list(w.loop.transports)
             await asyncio.sleep(0)
@@ -123,6 +137,16 @@ def scenario(sh: Shard, seed, idx, regime):
         if "exc" in out:
             d = describe_exc(out["exc"])
             sh.violation("C15:raise", f"discover() raised {d['type']}: {d['msg']}", dict(wit, exc=d))
+            return
+        if out.get("cancelled"):
+            # only the clean-up clauses apply to a cancelled run
+            opened = out["transports"]
+            sh.count("cancelled_discoveries")
+            if not all(t.closed for t in opened):
+                sh.violation("C15:endpoint-open", f"discovery endpoint not closed after discover() was cancelled at +{cancel_after}s", wit)
+            if out["loc_tasks"]:
+                sh.violation("C15:helper-tasks-alive", f"helper tasks still alive after discover() was cancelled: {out['loc_tasks']}", wit)
+            sh.nontrivial(f"{seed}:{idx}:cancelled")
             return
         # arrivals at the locator endpoint: (arrival time, responder)
         arrivals = []
@@ -230,6 +254,7 @@ def main(tier, seed):
     c15_threaded.add(run, tier, seed)
     for m in ("none", "id", "id-absent", "addr", "addr+id"):
         run.need(m in run.sets.get("modes", set()), f"filter mode {m} never exercised")
+    run.need(run.counters.get("cancelled_discoveries", 0) > 10, "no cancelled discovery run")
     run.need(run.counters.get("names_with_separator_listed", 0) > 5 and run.counters.get("names_latin1_listed", 0) > 20, "names with '|' / latin-1 hardly listed")
     run.need(run.counters.get("returns_on_specific_answer", 0) > 20 and run.counters.get("returns_after_initial_wait", 0) > 20 and run.counters.get("ran_to_timeout", 0) > 20, "return-time classes not all observed")
     return run.finish(
